@@ -596,7 +596,7 @@ PROPS["C11"] = {
     "shards": 16,
     "quick_budget_s": 60,
     "thorough_budget_s": 900,
-    "floors": {"any": {"pair:None": 200, "pair:Superset": 50, "pair:ImportRemoved": 50, "pair:ExportAdded": 50,
+    "floors": {"any": {"merged-import:world-offers-less-than-the-union": 30, "merged-import:world-offers-the-union": 60, "pair:None": 200, "pair:Superset": 50, "pair:ImportRemoved": 50, "pair:ExportAdded": 50,
                        "pair:ImportTypeChanged": 50, "pair:ExportTypeChanged": 50, "pair:VersionShift": 5,
                        "resolve:accept": 200, "resolve:import-not-in-target": 50, "resolve:missing-export": 50,
                        "resolve:type-mismatch": 100, "reference:subtype": 100, "reference:not-subtype": 100}},
